@@ -43,3 +43,19 @@ pub mod ast {
     }
 }
 pub struct SpannedAstExpr { pub value: ast::Expr }
+
+// ---- PatternTranslator::compile_constructor: is the match on a variant complete (every constructor has its group)?
+#[verifier::external_body] pub struct Vars { _p: () }          // the scrutinee variables (the first one is matched on)
+pub uninterp spec fn ctor_count(v: Vars) -> nat;                // number of constructors of its (alias-free) variant type
+pub uninterp spec fn row_closed(v: Vars) -> bool;               // the row of that type ends in EmptyRow (not row-polymorphic)
+pub struct Rows { pub count: usize, pub closed: bool }
+// R-iter: `variables[0].env_type_of(..)` / `remove_aliases_cow` / `remove_forall().row_iter()` and the two reads of the row
+// iterator (`by_ref().count()`, `current_type() == EmptyRow`) are named by this helper
+#[verifier::external_body]
+pub fn scrutinee_rows(variables: &Vars) -> (r: Rows) ensures r.count == ctor_count(*variables), r.closed == row_closed(*variables) { unimplemented!() }
+// the equations grouped by constructor (a hash map in the source): only the number of groups is read here
+#[verifier::external_body] pub struct Groups { _p: () }
+impl Groups {
+    pub uninterp spec fn n(&self) -> nat;
+    #[verifier::external_body] pub fn len(&self) -> (r: usize) ensures r == self.n() { unimplemented!() }
+}
